@@ -1,7 +1,8 @@
 #!/bin/bash
 # Build (and thereby cache) the harness test binaries of every claimed check from the files on disk; offline.
 set -u
-cd /verif
+cd "$(dirname "$(readlink -f "$0")")"
+VROOT=$(pwd)
 . ./env.sh
 mkdir -p bin out evidence/replays
 declare -A seen
@@ -13,7 +14,7 @@ for P in $(jq -r '.checks[].property_id' MANIFEST.json); do
   seen[$pkg]=1
   dir=harness; [ "$pkg" = wasm ] && dir=harness-wasm
   echo "building $dir/$pkg"
-  ( cd $dir && go test -c -tags verif -o /verif/bin/setup.$pkg.test ./$pkg ) || rc=1
-  rm -f /verif/bin/setup.$pkg.test
+  ( cd $dir && go test -c -tags verif -o $VROOT/bin/setup.$pkg.test ./$pkg ) || rc=1
+  rm -f $VROOT/bin/setup.$pkg.test
 done
 exit $rc
